@@ -62,6 +62,10 @@ type Opts struct {
 	WithRaw   bool // also record idr.JSONify2 of the raw record
 	External  map[string]string
 	ExtraRead int // Reads to issue after the terminal result (they must repeat it; recorded)
+	// Ctx, when set, is the context VALUE handed to NewTransform (its ExternalProperties are overwritten with External):
+	// a caller may build one Ctx and pass it to one transform after the other. InputName overrides "input".
+	Ctx       *transformctx.Ctx
+	InputName string
 }
 
 // ErrNoTerminal is returned when the cap was hit before a terminal result.
@@ -74,7 +78,16 @@ func NewSchema(schema string) (omniparser.Schema, error) {
 
 // Transcript runs a transform to its terminal result.
 func Transcript(sch omniparser.Schema, input io.Reader, o Opts) ([]Step, error) {
-	tr, err := sch.NewTransform("input", input, &transformctx.Ctx{ExternalProperties: o.External})
+	ctx := o.Ctx
+	if ctx == nil {
+		ctx = &transformctx.Ctx{}
+	}
+	ctx.ExternalProperties = o.External
+	name := o.InputName
+	if name == "" {
+		name = "input"
+	}
+	tr, err := sch.NewTransform(name, input, ctx)
 	if err != nil {
 		return []Step{{Kind: "term", Err: err.Error(), ErrClass: "newtransform"}}, nil
 	}
